@@ -13,41 +13,66 @@ protect (the spine of the lock-array list, finding F8), only monitored.
 namespace Cuckoo.Props.C03
 open Cuckoo.Proto
 
+private theorem access_guard (s : PS) (t : Tid) (stripe : Nat) (h : (accept s (.access t stripe)).isSome = true) :
+    ((s.th t).validated = true ∨ (s.th t).owner = true) ∧ s.holder ⟨s.curGen, stripe⟩ = some t ∧
+      ¬ (s.th t).mustRelease = true := by
+  simp only [accept] at h
+  split at h
+  next hg => exact hg
+  · cases h
+
 /-- a lock has at most one holder, and the threads' own views agree with the lock table -/
 theorem holder_agrees (s : PS) (h : Reach s) (t : Tid) (l : LockId) :
     l ∈ (s.th t).held ↔ s.holder l = some t := by
-  sorry
+  exact (reach_inv s h).held_iff t l
 
 /-- two threads that are both allowed to touch a bucket of the same stripe are the same thread -/
 theorem access_exclusive (s : PS) (t u : Tid) (stripe : Nat)
     (ht : (accept s (.access t stripe)).isSome = true) (hu : (accept s (.access u stripe)).isSome = true) : t = u := by
-  sorry
+  have a1 := access_guard s t stripe ht
+  have a2 := access_guard s u stripe hu
+  rw [a1.2.1] at a2
+  exact Option.some.inj a2.2.1
 
 /-- whoever touches a bucket holds its stripe in the current lock array and is validated (or owns the table) -/
 theorem access_needs_current_stripe (s s' : PS) (t : Tid) (stripe : Nat) (ha : accept s (.access t stripe) = some s') :
     s.holder ⟨s.curGen, stripe⟩ = some t ∧ ((s.th t).validated = true ∨ (s.th t).owner = true) ∧ s' = s := by
-  sorry
+  have a1 := access_guard s t stripe (by rw [ha]; rfl)
+  refine ⟨a1.2.1, a1.1, ?_⟩
+  simp only [accept, if_pos a1] at ha
+  exact (Option.some.inj ha).symm
 
 /-- validated threads hold pairwise disjoint stripe sets -/
 theorem validated_disjoint (s : PS) (h : Reach s) (t u : Tid) (l : LockId)
     (ht : l ∈ (s.th t).held) (hu : l ∈ (s.th u).held) : t = u := by
-  sorry
+  have hi := reach_inv s h
+  have a1 := (hi.held_iff t l).1 ht
+  have a2 := (hi.held_iff u l).1 hu
+  rw [a1] at a2
+  exact Option.some.inj a2
 
 /-- a thread that owns the table (lock_all completed, or an active locked section) excludes every validated thread -/
 theorem owner_excludes_validated (s : PS) (h : Reach s) (z t : Tid) (hz : (s.th z).owner = true)
     (ht : (s.th t).validated = true) : t = z := by
-  sorry
+  exact ((reach_inv s h).owner_not_val hz ht).elim
 
 /-- and nobody but the owner can touch any bucket while the table is owned -/
 theorem owner_excludes_access (s : PS) (h : Reach s) (z t : Tid) (stripe : Nat) (hz : (s.th z).owner = true)
     (hst : stripe < s.curSize) (ha : (accept s (.access t stripe)).isSome = true) : t = z := by
-  sorry
+  have hi := reach_inv s h
+  have a1 := (access_guard s t stripe ha).2.1
+  have a2 := (hi.owner_all z hz).1 stripe (by rw [curSize_eq s hi.gens_ne]; exact hst)
+  rw [a1] at a2
+  exact Option.some.inj a2
 
 /-- n read-modify-write updates of one key by any threads, in any accepted schedule, are n accesses each made
 under the stripe lock: between the `acquire` and the `release` of that lock no other thread touches the stripe -/
 theorem no_interleaved_access (s s1 : PS) (h : Reach s) (t u : Tid) (stripe : Nat)
     (hheld : s.holder ⟨s.curGen, stripe⟩ = some t) (hu : accept s (.access u stripe) = some s1) : u = t := by
-  sorry
+  have _ := h
+  have a1 := (access_guard s u stripe (by rw [hu]; rfl)).2.1
+  rw [hheld] at a1
+  exact (Option.some.inj a1).symm
 
 /-! non-vacuity -/
 example : (run (init 3 4) [.rcLoad 0, .hpLoad 0, .genLoad 0, .acquire 0 ⟨0,2⟩, .rcLoad 0, .access 0 2]).isSome = true := by decide
